@@ -245,6 +245,16 @@ func (fr *Frame) backEdge(b, h *ssa.BasicBlock, e *State) {
 		env.pre = li.headState
 		env.postPhis = back
 		g := c.evalBool(env, cl.Expr)
-		c.oblige(e, "step", cl.Label, cl.Props, g, pos, fmt.Sprintf("loop %d step: %s", li.ordinal, cl.Src))
+		o := c.oblige(e, "step", cl.Label, cl.Props, g, pos, fmt.Sprintf("loop %d step: %s", li.ordinal, cl.Src))
+		if o != nil {
+			if vals, plan := fr.stepReplayValues(li, e); plan != nil {
+				plan.Clause = cl
+				if fr.fc != nil && len(fr.fc.Params) > 0 {
+					plan.Names = fr.fc.Params
+				}
+				o.Values = vals
+				o.Replay = plan
+			}
+		}
 	}
 }
